@@ -189,6 +189,50 @@ def run(ctx):
                     ctx.violation("C12/%s/independence" % ch, "lag-1 correlation %.2e of the events for p=%g" % (c, p), {"p": p, "lag1": c})
         ctx.count("statistical-tests", tests)
         ctx.note("A-rng validation: %d tests on %d symbols each at 6.2 sigma (per-test false alarm 5.6e-10)" % (tests, n))
+    # inputs that are not contiguous in memory (transposed, permuted, channels-last, strided): the same law holds
+    # (which draw lands on which position may depend on the strides, so the law is checked, not equality with the contiguous copy)
+    for chname, mkc in (("BinarySymmetricChannel", BinarySymmetricChannel), ("BinaryErasureChannel", BinaryErasureChannel), ("BinaryZChannel", BinaryZChannel)):
+        for p_ in (0.0, 0.3, 1.0):
+            for alpha in ("01", "pm"):
+                for dt in (torch.float32, torch.int64):
+                    base = torch.randint(0, 2, (40, 60, 50))
+                    base = (2 * base - 1) if alpha == "pm" else base
+                    base = base.to(dt)
+                    views = [("transposed", base[0].t()), ("permuted", base.permute(2, 0, 1)), ("strided", base[:, ::2, :]),
+                             ("channels_last", base.reshape(1, 40, 60, 50).to(memory_format=torch.channels_last) if dt.is_floating_point else base.reshape(1, 40, 60, 50).permute(0, 2, 3, 1).contiguous().permute(0, 3, 1, 2))]
+                    for vname, xv in views:
+                        chan = mkc(p_)
+                        xv0 = xv.clone()
+                        torch.manual_seed(rng.randrange(1 << 30))
+                        yv = chan(xv)
+                        ctx.count("non-contiguous-cases")
+                        ctx.nontriv((chname, p_, alpha, str(dt), vname))
+                        rep_ = {"channel": chname, "p": p_, "alphabet": alpha, "view": vname}
+                        if not torch.equal(xv, xv0):
+                            ctx.violation("C12/%s/input-modified" % chname, "%s modified its %s input tensor" % (chname, vname), rep_)
+                        if tuple(yv.shape) != tuple(xv.shape):
+                            ctx.violation("C12/%s/shape" % chname, "%s: %s input of shape %s gives shape %s" % (chname, vname, tuple(xv.shape), tuple(yv.shape)), rep_)
+                            continue
+                        xd, yd = xv.to(torch.float64), yv.to(torch.float64)
+                        one = xd == 1
+                        zero_sym = -1.0 if alpha == "pm" else 0.0
+                        if chname == "BinaryZChannel":
+                            eligible, changed = one, (yd != xd) & one
+                            stray = int(((yd != xd) & ~one).sum()) + int(((yd != xd) & one & (yd != zero_sym)).sum())
+                        elif chname == "BinarySymmetricChannel":
+                            eligible, changed = torch.ones_like(one), (yd != xd)
+                            other = torch.where(one, torch.full_like(xd, zero_sym), torch.ones_like(xd))
+                            stray = int(((yd != xd) & (yd != other)).sum())
+                        else:
+                            es = float(chan.erasure_symbol)
+                            eligible = xd != es                   # erasing a symbol that equals the erasure symbol is not observable
+                            changed = (yd != xd) & eligible
+                            stray = int(((yd != xd) & (yd != es)).sum())
+                        n_el, n_ch = int(eligible.sum()), int(changed.sum())
+                        tol = 6.5 * math.sqrt(max(p_ * (1 - p_), 0) * n_el) + 0.5
+                        if stray or abs(n_ch - p_ * n_el) > tol:
+                            ctx.violation("C12/%s/non-contiguous" % chname, "%s(p=%g) on a %s %s input changes %d of %d eligible symbols (expected %.0f +- %.0f)%s" % (
+                                chname, p_, vname, "{-1,+1}" if alpha == "pm" else "{0,1}", n_ch, n_el, p_ * n_el, tol, ", %d symbols changed to a value outside the law" % stray if stray else ""), rep_)
     ctx.assumptions += ["A-rng: torch.rand draws are i.i.d. uniform on [0,1) (validated statistically in the thorough tier, never proved)",
                         "A-alias: 'input tensor not modified' is observed by the harness on every case, not expressible in the pure model",
                         "probabilities enter the comparison as the float32 value the channel stores"]
